@@ -468,20 +468,44 @@ func strictGapless(st tl.M, nonce map[string]int64) bool {
 	return true
 }
 
-// run executes one behaviour on a fresh pool and writes its events; returns the number of ops.
-func run(tr *tl.Trace, steps []step, sum *tl.Summary) int {
-	if len(steps) == 0 || steps[0].Act.Op != "init" {
+// occurrences of open known findings (reported to the check in Summary.Extra["pending"])
+type pendingFinding struct {
+	Count  int `json:"count"`
+	Sample any `json:"sample"`
+}
+
+var pending = map[string]*pendingFinding{}
+
+func notePending(id string, sample any) {
+	if pending[id] == nil {
+		pending[id] = &pendingFinding{Sample: sample}
+	}
+	pending[id].Count++
+}
+
+// feedback for the interactive generator: the last projection and result
+var (
+	lastPend  = map[string][]atx{}
+	lastQueue = map[string][]atx{}
+	lastCls   string
+	// the projection before the last operation
+	prevPend, prevQueue = map[string][]atx{}, map[string][]atx{}
+)
+
+// run executes one behaviour on a fresh pool and writes its events; next yields the i-th operation
+// (nil ends the behaviour) and may consult the feedback variables above.
+func run(tr *tl.Trace, in act, next func(i int) *act, sum *tl.Summary) int {
+	if in.Op != "init" {
 		tl.Fatal("behaviour does not start with init")
 	}
-	in := steps[0].Act
 	norm(in.Genesis)
 	s := newSUT(in.Cfg, in.Genesis, in.Tip)
 	defer s.close()
 	st, _ := s.project()
+	lastPend, lastQueue, lastCls = st["pend"].(map[string][]atx), st["queue"].(map[string][]atx), "ok"
 	tr.Emit(tl.M{"op": "init", "cfg": in.Cfg, "genesis": in.Genesis, "tip": in.Tip, "err": "ok", "state": st})
 	n := 0
-	for i := range steps[1:] {
-		a := &steps[1+i].Act
+	for a := next(n); a != nil; a = next(n) {
 		norm(a.Block)
 		cls := s.apply(a)
 		if len(cls) > 6 && cls[:6] == "other:" {
@@ -492,7 +516,14 @@ func run(tr *tl.Trace, steps []step, sum *tl.Summary) int {
 			sum.Notes = append(sum.Notes, "equal heartbeats observed; rest of the behaviour skipped")
 			break
 		}
+		lastPend, lastQueue, lastCls = st["pend"].(map[string][]atx), st["queue"].(map[string][]atx), cls
 		lastStrict = strictGapless(st, s.chain.head.abs.Nonce)
+		if !lastStrict && a.Op == "reset" {
+			// fingerprint of the open finding C41-gap-after-reorg: a Reset leaves a pending list with a nonce
+			// gap (the specification excuses exactly these accounts; a gap made by any other operation
+			// violates PendingGapless in the trace validation)
+			notePending("C41-gap-after-reorg", tl.M{"op": a, "pend": st["pend"], "state_nonce": s.chain.head.abs.Nonce})
+		}
 		seenStates[fmt.Sprint(st["pend"], st["queue"], st["urg"], st["flo"], st["stales"])] = true
 		ev := tl.M{"op": a.Op, "err": cls, "state": st, "id": a.ID, "tip": a.Tip}
 		if a.Tx != nil {
@@ -521,7 +552,13 @@ func runReplay(in, trace string, sum *tl.Summary) {
 	defer tr.Close()
 	seen := map[string]bool{}
 	for i, b := range behaviours {
-		n := run(tr, b, sum)
+		b := b
+		n := run(tr, b[0].Act, func(i int) *act {
+			if 1+i >= len(b) {
+				return nil
+			}
+			return &b[1+i].Act
+		}, sum)
 		sum.Traces++
 		sum.Evaluations++
 		sum.Steps += n
@@ -546,7 +583,13 @@ func runWitness(in, trace string, sum *tl.Summary) {
 	defer tr.Close()
 	reproduced := 0
 	for _, b := range behaviours {
-		n := run(tr, b, sum)
+		b := b
+		n := run(tr, b[0].Act, func(i int) *act {
+			if 1+i >= len(b) {
+				return nil
+			}
+			return &b[1+i].Act
+		}, sum)
 		sum.Traces++
 		sum.Evaluations++
 		sum.Steps += n
@@ -579,7 +622,11 @@ func runRecord(trace string, seed int64, ntraces, nsteps int, sum *tl.Summary) {
 			gen.Bal[n] = bals[1+r.Intn(len(bals)-1)]
 			gen.Deleg[n] = r.Intn(8) == 0
 		}
-		steps := []step{{Act: act{Op: "init", Cfg: cfg, Genesis: gen, Tip: 1}}}
+		initAct := act{Op: "init", Cfg: cfg, Genesis: gen, Tip: 1}
+		var (
+			sample  []act
+			lastAdd *atx // the transaction of the previous operation if that was an Add
+		)
 		// the generator tracks only what it needs to make interesting choices: the block tree
 		blocks := map[int64]*ablock{0: gen}
 		head := int64(0)
@@ -601,8 +648,43 @@ func runRecord(trace string, seed int64, ntraces, nsteps int, sum *tl.Summary) {
 			}
 			return a
 		}
-		for i := 0; i < nsteps; i++ {
+		occupied := func(t *atx) *atx { // the pooled transaction that sat at t's position before t was added
+			for _, l := range [][]atx{prevPend[t.From], prevQueue[t.From]} {
+				for i := range l {
+					if l[i].Nonce == t.Nonce && l[i] != *t {
+						return &l[i]
+					}
+				}
+			}
+			return nil
+		}
+		gen1 := func(i int) *act {
+			if i >= nsteps {
+				return nil
+			}
 			var a act
+			defer func() { prevPend, prevQueue = lastPend, lastQueue }()
+			// "squeeze": right after a replacement by a costlier transaction, a new head leaves the sender a
+			// balance between the replaced and the replacing cost (the cached cost cap of the list must have
+			// been raised by the replacement for the now unaffordable transaction to be dropped)
+			if lastAdd != nil && lastCls == "ok" && r.Intn(3) != 0 {
+				if o := occupied(lastAdd); o != nil {
+					oc, nc := o.Gas*o.Cap+o.Val, lastAdd.Gas*lastAdd.Cap+lastAdd.Val
+					if nc > oc {
+						pb := blocks[head]
+						nb := &ablock{Parent: head, Num: pb.Num + 1, Txs: []atx{}, Nonce: map[string]int64{}, Bal: map[string]int64{}, Deleg: map[string]bool{}, Bf: pb.Bf}
+						for _, n := range acctNames {
+							nb.Nonce[n], nb.Bal[n], nb.Deleg[n] = pb.Nonce[n], pb.Bal[n], pb.Deleg[n]
+						}
+						nb.Bal[lastAdd.From] = oc + r.Int63n(nc-oc) // in [old cost, new cost)
+						id := int64(len(blocks))
+						blocks[id], head, lastAdd = nb, id, nil
+						a = act{Op: "reset", ID: id, Block: nb}
+						return &a
+					}
+				}
+			}
+			lastAdd = nil
 			switch c := r.Intn(100); {
 			case c < 72:
 				from := acctNames[r.Intn(len(acctNames))]
@@ -635,6 +717,7 @@ func runRecord(trace string, seed int64, ntraces, nsteps int, sum *tl.Summary) {
 				}
 				remember(tx)
 				a = act{Op: "add", Tx: &tx}
+				lastAdd = &tx
 			case c < 92:
 				if len(blocks) > 1 && r.Intn(8) == 0 { // jump to an existing block
 					ids := []int64{}
@@ -689,17 +772,19 @@ func runRecord(trace string, seed int64, ntraces, nsteps int, sum *tl.Summary) {
 			default:
 				a = act{Op: "settip", Tip: []int64{1, 3, 21, 25, 2}[r.Intn(5)]}
 			}
-			steps = append(steps, step{Act: a})
+			if i == 0 || i == nsteps-1 {
+				sample = append(sample, a)
+			}
+			return &a
 		}
-		before := tr.N
-		n := run(tr, steps, sum)
+		n := run(tr, initAct, gen1, sum)
 		sum.Traces++
 		sum.Evaluations++
 		sum.Steps += n
-		_ = before
 		if t == 0 {
-			sum.Sample(steps[1].Act)
-			sum.Sample(steps[len(steps)-1].Act)
+			for _, a := range sample {
+				sum.Sample(a)
+			}
 		}
 	}
 	// distinct non-trivial cases: distinct projected pool states seen
@@ -728,6 +813,7 @@ func main() {
 	default:
 		tl.Fatal("bad mode")
 	}
+	sum.Extra["pending"] = pending
 	sum.Write(*out)
 	if len(sum.Violations) > 0 {
 		os.Exit(1)
